@@ -104,6 +104,11 @@ pub(crate) struct Exec {
     pub active: bool,
     pub stamp: u64,
     pub publish_log: Vec<(usize, u64)>,
+    /// the clock as a loom object: reading the time is an operation loom's
+    /// partial-order reduction sees (all reads of the clock are mutually
+    /// dependent), so no interleaving that differs in the order of clock
+    /// reads is pruned
+    pub loom_clock: Option<Rc<loom::sync::atomic::AtomicU64>>,
 }
 
 impl Exec {
@@ -120,6 +125,7 @@ impl Exec {
             active: false,
             stamp: 0,
             publish_log: Vec::new(),
+            loom_clock: None,
         }
     }
 }
@@ -203,6 +209,7 @@ pub fn begin_execution() {
         let old = std::mem::replace(e, Exec::new());
         e.knobs = knobs;
         e.active = true;
+        e.loom_clock = Some(Rc::new(loom::sync::atomic::AtomicU64::new(0)));
         // counters of the finished execution are accumulated
         TOTALS.with(|t| add(&mut t.borrow_mut(), &old.counters));
         // loom objects of the previous execution are dead handles now
@@ -217,6 +224,7 @@ pub fn end_execution() {
         let c = std::mem::take(&mut e.counters);
         TOTALS.with(|t| add(&mut t.borrow_mut(), &c));
         e.active = false;
+        e.loom_clock = None;
         e.cells.clear();
         e.regions.clear();
         e.threads.clear();
